@@ -22,7 +22,7 @@ from vlib.model import *  # noqa
 from vlib.refcodec import Codec
 
 LEVEL = "exploration"
-FLOOR = {"quick": 400, "thorough": 6000}
+FLOOR = {"quick": 400, "thorough": 20000}
 
 # ----------------------------------------------------------------------------- expression parser (Python and MATLAB call syntax)
 
@@ -285,7 +285,7 @@ def run(ctx):
     ctx.assumptions = ["Python plans are read from the generated package text and that package is imported with every serializer/converter instantiated (runtime check that the expressions evaluate)",
                        "MATLAB cannot be executed: its plan is the emitted construction expression (a wrong static helper inside +yardl/+binary would not show)",
                        "the C++ plan is executed against the reference codec by C01/C03 on the same corpus", "member names are not compared (name mangling differs per target), only order and encodings"]
-    keys = [("ser", k) for k in corpus.ser_keys(12 if quick else 150, "p")] + [("evo", "c14_%d_%d" % (common.seed(), i)) for i in range(3 if quick else 30)]
+    keys = [("ser", k) for k in corpus.ser_keys(12 if quick else 800, "p")] + [("evo", "c14_%d_%d" % (common.seed(), i)) for i in range(3 if quick else 150)]
 
     def one(item):
         kind, key = item
